@@ -599,6 +599,19 @@ func (r *Ring) Exec(t []string) string {
 		return "ok"
 	case "stabilize":
 		return withTimeout(opTimeout, func() string { r.Node(u(1)).VerifStabilize(); return "ok" })
+	case "stabilizex": // stabilize whose Notify to the successor is lost
+		return withTimeout(opTimeout, func() string {
+			old := r.Fault
+			r.Fault = func(target uint64, method string) int {
+				if method == "Notify" {
+					return 1
+				}
+				return 0
+			}
+			r.Node(u(1)).VerifStabilize()
+			r.Fault = old
+			return "ok"
+		})
 	case "fixfinger":
 		return withTimeout(opTimeout, func() string { r.Node(u(1)).VerifFixFinger(); return "ok" })
 	case "checkpred":
